@@ -192,6 +192,9 @@ class Gen:
                 else:
                     b = [f"#ifndef {g}", f"#define {g}"] + b + ["#endif", r.choice([f"#ifdef {g}", f"#ifdef {r.choice(MACROS)}", "#if 1"]),
                                                                  self.marker(), "#endif"]
+            elif style < 0.46:
+                # `#pragma once` in a group that is not entered has no effect: the header is processed at every inclusion
+                b = ["#if defined(C04_NEVER_DEFINED)", "#pragma once", "#endif"] + b
             elif style < 0.65:
                 b = ["#pragma once"] + b
             files[p] = b
@@ -205,6 +208,24 @@ class Gen:
                 if incs:
                     files[s].append(r.choice(incs))
                     files[s].append(self.marker())
+        if r.random() < 0.25:
+            # a dispatch header: one computed include directive reached twice in a unit with another value of the macro
+            hs = sorted(p for p in files if p.startswith("src/") and p.endswith(".h") and posixpath.dirname(p) == "src")
+            if len(hs) >= 2:
+                a, b2 = r.sample(hs, 2)
+                files["src/dispatch.h"] = [self.marker(), "#include C04_IMPL", self.marker()]
+                files["src/main.c"] += [f'#define C04_IMPL "{posixpath.basename(a)}"', '#include "dispatch.h"', "#undef C04_IMPL",
+                                        f'#define C04_IMPL "{posixpath.basename(b2)}"', '#include "dispatch.h"', self.marker()]
+        if r.random() < 0.3:
+            # the guard of an include-guarded header is undefined before the header is included again: it is processed again
+            for p in sorted(files):
+                b = files[p]
+                if p.startswith("src/") and posixpath.dirname(p) == "src" and len(b) > 2 and b[0].startswith("#ifndef G_") and b[1].startswith("#define G_") \
+                        and b[-1] == "#endif":
+                    g = b[0].split()[1]
+                    files["src/main.c"] += [f'#include "{posixpath.basename(p)}"', f"#undef {g}", "#undef A", r.choice(["#define A 2", "#define A 0", "#undef B"]),
+                                            f'#include "{posixpath.basename(p)}"', self.marker()]
+                    break
         if r.random() < 0.2:
             # a header that includes itself for a second pass (X-macro style): the nested visit happens while the
             # first one is still open, takes the other branch and defines a macro the includer tests afterwards
